@@ -51,14 +51,24 @@ func cmdManyInlined(a Args) {
 				}
 			}()
 			base := NewLogBase()
+			compact := h%2 == 1 // composite-typed children with pairwise different field names: one compact-map entry each
 			st := newStorage(base)
+			if compact {
+				st = codecStorage(base)
+			}
 			addr := mkAddr(2)
 			parent, err := atree.NewArray(st, addr, testutils.NewSimpleTypeInfo(40))
 			must(err)
 			for i := 0; i < k; i++ {
-				m, err := atree.NewMap(st, addr, atree.NewDefaultDigesterBuilder(), testutils.NewSimpleTypeInfo(uint64(50+i%3)))
+				var cti atree.TypeInfo = testutils.NewSimpleTypeInfo(uint64(50 + i%3))
+				var key atree.Value = testutils.Uint64Value(uint64(i))
+				if compact {
+					cti = codecCompositeTI{1}
+					key = testutils.NewStringValue(fmt.Sprintf("f%d", i))
+				}
+				m, err := atree.NewMap(st, addr, atree.NewDefaultDigesterBuilder(), cti)
 				must(err)
-				_, err = m.Set(testutils.CompareValue, testutils.GetHashInput, testutils.Uint64Value(uint64(i)), testutils.Uint64Value(uint64(10000+i)))
+				_, err = m.Set(testutils.CompareValue, testutils.GetHashInput, key, testutils.Uint64Value(uint64(10000+i)))
 				must(err)
 				must(parent.Append(m))
 			}
@@ -82,6 +92,9 @@ func cmdManyInlined(a Args) {
 			}
 			rep.Event("commit_accepted")
 			st2 := newStorage(base.Clone())
+			if compact {
+				st2 = codecStorage(base.Clone())
+			}
 			p2, err := atree.NewArrayWithRootID(st2, parent.SlabID())
 			if err != nil {
 				fail("C03: parent cannot be reopened", err.Error())
@@ -102,7 +115,11 @@ func cmdManyInlined(a Args) {
 					fail("C07: reloaded child is not a map", fmt.Sprintf("%T", v))
 					return
 				}
-				got, err := cm.Get(testutils.CompareValue, testutils.GetHashInput, testutils.Uint64Value(uint64(i)))
+				var key atree.Value = testutils.Uint64Value(uint64(i))
+				if compact {
+					key = testutils.NewStringValue(fmt.Sprintf("f%d", i))
+				}
+				got, err := cm.Get(testutils.CompareValue, testutils.GetHashInput, key)
 				if err != nil {
 					fail("C07: entry of an inlined child is lost after commit and reload (its extra-data index was written wrongly)", fmt.Sprintf("child %d: %v", i, err))
 					return
@@ -110,7 +127,7 @@ func cmdManyInlined(a Args) {
 				if uint64(got.(testutils.Uint64Value)) != uint64(10000+i) {
 					fail("C07: entry of an inlined child changed after commit and reload", fmt.Sprintf("child %d", i))
 				}
-				if tiv, ok := cm.Type().(testutils.SimpleTypeInfo); !ok || tiv.Value() != uint64(50+i%3) {
+				if tiv, ok := cm.Type().(testutils.SimpleTypeInfo); !compact && (!ok || tiv.Value() != uint64(50+i%3)) {
 					fail("C07: type of an inlined child changed after commit and reload", fmt.Sprintf("child %d", i))
 				}
 			}
